@@ -106,6 +106,7 @@ func findFunc(f *ast.File, name string) *ast.FuncDecl {
 
 type xlate struct {
 	rename map[string]string
+	params map[string]bool
 }
 
 func (x *xlate) expr(e ast.Expr) (string, error) {
@@ -113,6 +114,10 @@ func (x *xlate) expr(e ast.Expr) (string, error) {
 		return r, nil
 	}
 	switch e := e.(type) {
+	case *ast.Ident:
+		if x.params[e.Name] {
+			return e.Name, nil
+		}
 	case *ast.ParenExpr:
 		s, err := x.expr(e.X)
 		if err != nil {
@@ -242,9 +247,14 @@ func extract(repo string, it Item) (sourceTxt, lean string, err error) {
 	if err != nil {
 		return "", "", err
 	}
-	x := &xlate{rename: map[string]string{}}
+	x := &xlate{rename: map[string]string{}, params: map[string]bool{}}
 	for k, v := range it.Rename {
 		x.rename[norm(k)] = v
+	}
+	for _, w := range regexp.MustCompile(`[A-Za-z_][A-Za-z0-9_]*`).FindAllString(it.Params, -1) {
+		if w != "Int" && w != "Bool" && w != "String" && w != "Nat" {
+			x.params[w] = true
+		}
 	}
 	parts := strings.Split(it.Sel, ":")
 	kind := parts[0]
